@@ -24,6 +24,7 @@ import MsVerif.Model.TypeCheck
 import MsVerif.Model.Ext
 import MsVerif.Spec.Policy
 import MsVerif.Spec.SatTable
+import MsVerif.Model.Concrete
 
 namespace MsVerif.CC
 open MsVerif MsVerif.SatTable
@@ -296,5 +297,63 @@ def noIfFragment (m : Ms) : Bool :=
   (subterms m).all fun
     | .dupIf _ | .nonZero _ | .andOr _ _ _ | .orD _ _ | .orC _ _ | .orI _ _ => false
     | _ => true
+
+/-! ## Policies that MUST compile (conditional totality on the documented small class) -/
+
+/-- no `TRIVIAL` / `UNSATISFIABLE` leaf -/
+def noConst : CPolicy → Bool
+  | .unsat | .trivial => false
+  | .atom _ => true
+  | .and subs | .or subs | .thresh _ subs => go subs
+where go : List CPolicy → Bool
+  | [] => true
+  | p :: ps => noConst p && go ps
+
+/-- every `and` / `or` has exactly two children (`check_binary_ops`) -/
+def binaryOps : CPolicy → Bool
+  | .and subs | .or subs => (subs.length == 2) && go subs
+  | .thresh _ subs => go subs
+  | _ => true
+where go : List CPolicy → Bool
+  | [] => true
+  | p :: ps => binaryOps p && go ps
+
+def keyIds : List Atom → List Nat
+  | [] => []
+  | .key k :: r => k :: keyIds r
+  | _ :: r => keyIds r
+
+/-- lock values that `AbsLockTime` / `RelLockTime` can represent -/
+def lockOk : Atom → Bool
+  | .after n => decide (1 ≤ n) && decide (n < 2147483648)
+  | .older n => decide (1 ≤ n) && decide (n < 2147483648)
+  | _ => true
+
+/-- The class on which `compile::<Segwitv0>` / `compile::<Tap>` are required to SUCCEED: at most
+four leaves, no constants, well-formed thresholds and binary `and`/`or`, no repeated key, no
+spending path mixing height- and time-locks (`check_timelocks`), and the documented admission
+test `is_safe_nonmalleable = (true, true)` (both mirrored in Model/Concrete.lean and compared
+with the library by C18).  Such a policy is far below every resource limit of the two
+contexts, so `LimitsExceeded` (or any other error) is not a legitimate answer. -/
+def mustCompile (P : CPolicy) : Bool :=
+  decide ((Pol.atomsOfC P).length ≤ 4) && noConst P && binaryOps P && Pol.WFC P
+  && (Pol.atomsOfC P).all lockOk
+  && !hasDup (keyIds (Pol.atomsOfC P))
+  && Pol.Conc.checkTimelocks P
+  && (Pol.Conc.isSafeNonmalleable P == (true, true))
+
+/-! ## `lift(compile_tr(P)) ≡ P` -/
+
+/-- the assignment with the caller's unspendable key switched off -/
+def maskKey (unsp : Option Nat) (v : Atom → Bool) : Atom → Bool :=
+  fun a => match unsp with
+    | some u => if a == Pol.Atom.key u then false else v a
+    | none => v a
+
+/-- the abstract policy `q` (the library's lift of a compiled `tr` descriptor, internal key
+included) has the truth table of the concrete policy `P`, the unspendable key never signing -/
+def trLiftOk (unsp : Option Nat) (P : CPolicy) (q : Pol.Policy) : Bool :=
+  Pol.forallVals (Pol.atomsOfC P ++ Pol.atomsOf q)
+    (fun v => Pol.holdsA (maskKey unsp v) q == Pol.holdsC (maskKey unsp v) P)
 
 end MsVerif.CC
